@@ -302,3 +302,41 @@ PROPS["C11"] = dict(
     uncovered=["textual numbers (str::parse after trimming)", "to_float32/64 single conversions", "extend_i16/_i32/_u32/_f32/_f64/_str",
                "DataElement / Value wrappers in header.rs and value/mod.rs (thin delegations)"],
 )
+
+# ----------------------------------------------------------------------- C04
+_SE = "parser/src/stateful/encode.rs"
+_C04K = ["c04::" + n for n in
+         ["c04_prim_u8_n0_le", "c04_prim_u8_n3_le", "c04_prim_u16_n2_le", "c04_prim_u16_n1_be", "c04_prim_i16_n1_il",
+          "c04_prim_u32_n2_be", "c04_prim_i32_n1_le", "c04_prim_u64_n1_le", "c04_prim_i64_n1_be", "c04_prim_f32_n1_le",
+          "c04_prim_f64_n1_be", "c04_prim_tags_n2_le", "c04_prim_empty"]]
+PROPS["C04"] = dict(
+    level="proof",
+    units=[
+        V("C04.stateful_encoder", "c04_stateful_encoder.vrs",
+          "StatefulEncoder (printer): even_len; encode_element_header evens defined lengths and keeps undefined ones; item "
+          "header/delimiters; write_raw_bytes; write_bytes = bytes + one NUL iff odd; encode_offset_table; "
+          "encode_text_element and encode_primitive_element (binary arm): header length is even and equals the number of "
+          "value bytes that follow, pad byte NUL (UI / binary) or space (DA/DT/TM, text); for ALL of them bytes_written "
+          "advances by exactly the bytes appended to the sink",
+          expected_verified=16),
+        K("C04.byte_len", "ext", _C04K,
+          "BasicEncode::encode_primitive (three real encoders): count returned == bytes written == items x item size; "
+          "PrimitiveValue::calculate_byte_len agrees (up to even rounding) — discharges the assumed link of the Verus unit for small values",
+          fns=[("encoding/src/encode/mod.rs", "encode_primitive", r"pub\s+trait\s+BasicEncode"),
+               ("core/src/value/primitive.rs", "calculate_byte_len", r"impl\s+PrimitiveValue")],
+          complete=False, bound="binary variants with 0-3 items (concrete lengths), contents symbolic; text/date/time variants not included",
+          timeout=300),
+        K("C04.offset_table", "ext", ["c04::c04_bot_n0_le", "c04::c04_bot_n2_le", "c04::c04_bot_n3_be", "c04::c04_bot_n2_il"],
+          "encode_offset_table: 4 bytes per entry, count returned == bytes written",
+          complete=False, bound="0-3 entries (concrete), values symbolic", timeout=300),
+    ],
+    assumptions=[
+        "EncodeTo is represented by its contract: header/item sizes as proved in C03; encode_primitive/encode_offset_table counts as checked (bounded) by C04.byte_len/C04.offset_table",
+        "axiom_byte_len: even(calculate_byte_len(v)) == even(|encode_primitive(v)|) — ASSUMED in the Verus unit, checked only for small binary values",
+        "text codec abstract: convert_text_untrailed returns some byte string shorter than 4 GiB",
+        "encode_texts_element and encode_element_as_text (iterator / format! code) are NOT verified",
+        "precondition room(n): bytes_written + n fits u64; value byte length < 2^32-2",
+    ],
+    uncovered=["validity of whole streams as judged by an independent parser", "DataSetWriter token machine (item/sequence delimiters vs lengths)",
+               "file writing (object/src/lib.rs)", "string/date/time value variants of encode_primitive"],
+)
